@@ -50,6 +50,25 @@ def run(res):
                                     "respondent (oracle only, no model comparison)": {k: cov3.get(k) for k in SUM_KEYS}}
     res.coverage["traces_validated_against_impl"] = cov1.get("evaluations", 0) + cov2.get("evaluations", 0)
     res.coverage["oracle_only_histories"] = cov3.get("evaluations", 0)
+    # search below the granularity of the histories: a survey's timer expiring while the next survey is being started
+    out, defs, (rc, so, se) = core.gen_and_eval("C07_race", "c07race",
+        "From Coq Require Import List NArith Bool.\nImport ListNotations.\nFrom MV Require Import Lib.Check.\nOpen Scope N_scope.\nOpen Scope list_scope.\n",
+        "Definition race_ok (c : bool * N * N * N * N) : bool := let '(_, it, ps, st, ot) := c in (0 <? it) && (ps =? 0) && (st =? 0) && (ot =? 0).\n"
+        "Definition bad_race := Eval vm_compute in bad_idx race_ok race_cases.\nPrint bad_race.\n")
+    if out is None:
+        res.violation("race:harness-abort", "the survey expiry-race search did not complete on the current tree (rc=%d): %s" % (rc, se[-600:]),
+                      {"stderr": se[-3000:]}, found_input=("panic:" in se or "WATCHDOG" in se))
+    else:
+        from .c20 import items
+        its = items(open(defs).read(), "race_cases")
+        res.coverage["expiry_race_sweeps"] = its
+        for i in core.parse_nlist(core.parse_printed(out, "bad_race")) or []:
+            res.violation("race:expiry-vs-new-survey",
+                          "with a survey's timer expiring at the moment the next survey is started (offset swept +-100 us, 4 goroutines contending for the socket mutex), "
+                          "Recv after the new survey's SendMsg reported 'no survey in progress', returned a stale response, or failed otherwise: "
+                          "(on a context?, iterations, ErrProtoState during the live survey, stale responses, other errors) = %s" % (its[i] if i < len(its) else "?"),
+                          {"case": its[i] if i < len(its) else "?", "how": "harness/cmd/c07race: SURVEY-TIME 2 ms; Send one; wait 2 ms + offset; SURVEY-TIME 10 s; Send two; Recv (1 ms deadline)",
+                           "model": "Model/Survey.v: a Recv during a live survey blocks or returns a response to it (theorems C07_returns_only_current_all_histories, C07_recv_no_survey)"})
     res.coverage["trusted_base"] = core.COQ_TRUSTED + [
         "hand-written models Model/Survey.v (SURVEYOR with contexts, XSURVEYOR) tied by correspondence at quiescence granularity: each stimulus is atomic in "
         "the model, so interleavings finer than one API call / one peer message / one timer expiry between quiescent points are covered neither by the "
